@@ -53,7 +53,8 @@ func (propC08) Gen(seed uint64, tier string, idx int) *Plan2 {
 		n := 1 + r.n(3)
 		p.Params["T"] = 1 + r.n(5)
 		p.Params["N"] = n
-		p.Params["ST"] = 1 + r.n(n)
+		// success_threshold is configured independently of half_open_requests: also above it
+		p.Params["ST"] = 1 + r.n(n+2)
 		p.Params["Dms"] = []int{1000, 60000}[r.n(2)]
 		// the unifier never talks to its breaker directly: half of the histories go the way
 		// LifecycleUnifier.UnifyModels does (Allow on the manager's breaker, results through the manager)
@@ -299,6 +300,12 @@ func refSucceed(p refParams, s refState, now time.Duration) []refState {
 		need := 1
 		if p.kind == "unifier" {
 			need = p.ST
+			if need > p.N {
+				// at most N probes are admitted per episode: "closes on a successful probe" and "no history
+				// leaves a breaker open for ever" then leave only one reading, closed once every admitted
+				// probe has succeeded
+				need = p.N
+			}
 		}
 		if s.psucc >= need {
 			return []refState{{T: s.T}}
